@@ -214,6 +214,32 @@ theorem C18_shape_ops :
       "attr:updated_at"], x ∈ Gen.dimOps) ∧ Gen.dimOps.length = 8 := by
   decide
 
+/-- `create_property` as written (the parameters reach `create_dataset` unchanged; attributes `name`, `entity_id`,
+`created_at`, `updated_at`, then `definition` / `unit` under `if <parameter>:`) called with the arguments of the main
+call as written (dtype and column of the values, the `definition` and the `unit` attribute of the old dataset, each a
+variable bound once and passed on unmodified) makes the main property of the model's `converted` (the `uncertainty`
+attribute aside, which the rules add); called with `dtype` and `data` only — the other parameters default to None —
+it makes the model's extra property. -/
+theorem C18_shape_create (run : Nat) (p : Path) (o : OldProp) (dt : String) (vals : List Val) :
+    (∃ n, (converted run p o).head? = some (p, .new n) ∧
+      (Shape.mainArgsG Gen.mainArgs o).bind (Shape.createG Gen.createDataset Gen.createAttrs run)
+        = some { n with uncertainty := none }) ∧
+    (Shape.defaultArgsG Gen.createParams dt vals).bind (Shape.createG Gen.createDataset Gen.createAttrs run)
+      = some (freshProp run dt vals) := by
+  refine ⟨⟨_, rfl, ?_⟩, ?_⟩
+  · rw [shape_main_args, Option.bind_some, shape_create]
+    rfl
+  · rw [shape_default_args, Option.bind_some, shape_create]
+    rfl
+
+/-- `has_valid_file_id` as written (`fileid and nix.util.is_uuid(fileid)`, with `uuid.UUID`'s acceptance modelled
+completely) is the model's `hasValidId`; `get_file_version` reads the header attribute; `file_upgrade` as written
+collects the task list and then processes it, returning True exactly when no step raised: the model's `upgrade`. -/
+theorem C18_shape_entry (lib : List Nat) (run : Nat) (f : File) :
+    Gen.idValid.eval (Shape.idEnv f.id) = some (hasValidId f) ∧ Gen.versionIsHeaderAttr = true ∧
+    Shape.entryG Gen.entryOps lib run f = some (upgrade lib run f) :=
+  ⟨shape_id_valid f, rfl, shape_entry lib run f⟩
+
 /-! ## content -/
 
 /-- "the upgrade succeeds and the file reads as before": every compound property is now a plain one
@@ -402,6 +428,43 @@ theorem C18_content_full (lib : List Nat) (r : Nat) (f : File) (hwf : WF f) (hna
     cases this
   · exact h
 
+/-- the unit / definition text as stored on a property dataset of either layout -/
+def storedUnit : PObj → Option String
+  | .old o => o.unit
+  | .new n => n.unit
+
+def storedDefinition : PObj → Option String
+  | .old o => o.definition
+  | .new n => n.definition
+
+/-- Texts are carried verbatim. Whatever non-empty text a property of the original file holds as its unit or its
+definition — any string at all: blanks inside or around it, a micro sign, Greek mu, the letters `mu`, a text the
+`Property.unit` setter would rewrite or refuse — the file holds the identical string on that property after any list
+of steps (the collected one, any prefix of it, a stale one; failing steps included), for every file. -/
+theorem C18_texts_verbatim (lib : List Nat) (r : Nat) (f : File) (hwf : WF f) (ss : List Step) (p : Path) (x : PObj)
+    (hx : (p, x) ∈ f.props) (t : String) (ht : t ≠ "") :
+    (storedUnit x = some t →
+      ∃ y, lookup (runSteps lib r f ss).1.props p = some y ∧ storedUnit y = some t) ∧
+    (storedDefinition x = some t →
+      ∃ y, lookup (runSteps lib r f ss).1.props p = some y ∧ storedDefinition y = some t) := by
+  obtain ⟨y, hy, hv⟩ := (C18_values_never_lost lib r f hwf ss).1 p x hx
+  have key : ∀ a b : Option String, nonEmpty a = nonEmpty b → a = some t → b = some t := by
+    intro a b hab ha
+    subst ha
+    cases b with
+    | none => simp [nonEmpty, Option.filter, ht] at hab
+    | some u =>
+      by_cases hu : u = ""
+      · subst hu; simp [nonEmpty, Option.filter, ht] at hab
+      · simpa [nonEmpty, Option.filter, ht, hu] using hab.symm
+  have hun : nonEmpty (storedUnit x) = nonEmpty (storedUnit y) := by
+    have := congrArg PropView.unit hv
+    cases x <;> cases y <;> exact this.symm
+  have hdf : nonEmpty (storedDefinition x) = nonEmpty (storedDefinition y) := by
+    have := congrArg PropView.definition hv
+    cases x <;> cases y <;> exact this.symm
+  exact ⟨fun h => ⟨y, hy, key _ _ hun h⟩, fun h => ⟨y, hy, key _ _ hdf h⟩⟩
+
 /-- a property `a` with a reference text next to a property named `a.reference` -/
 def clash : File :=
   { version := [1, 1, 0], id := .absent,
@@ -512,6 +575,33 @@ example : (interrupt [1, 2, 1] 1 2 sample).2 = none ∧ (interrupt [1, 2, 1] 1 2
 example : (upgrade [1, 2, 1] 1 sample).2 = none ∧ upToDate [1, 2, 1] sample = false := by
   unfold upgrade
   rw [sample_collect]
+  decide +kernel
+
+/-- a file whose units and definitions no setter of the current library would store as they are -/
+def rawTexts : File :=
+  { version := [1, 1, 0], id := .text " 16363698b524b4a97b750923ceb3ffd",
+    props := [(["s", "properties", "a"], .old ⟨"float64", [⟨.flt (.fin 1), .fin 0, "", "", "", ""⟩], some " lead, trail ", some "µV"⟩),
+              (["s", "properties", "b"], .old ⟨"int64", [⟨.int 2, .fin 0, "", "", "", ""⟩], some "", some "spikes / s"⟩)],
+    arrays := [], other := "" }
+
+theorem rawTexts_collect : collect [1, 2, 1] rawTexts =
+    [.prop ["s", "properties", "a"], .prop ["s", "properties", "b"], .bump] := by
+  have h1 : propTasks rawTexts = [["s", "properties", "a"], ["s", "properties", "b"]] :=
+    mergeSort_eq_of (by decide +kernel) (by decide +kernel)
+  have hv : hasValidId rawTexts = true := by decide +kernel
+  unfold collect
+  rw [show upToDate [1, 2, 1] rawTexts = false by decide +kernel, hv, h1]
+  decide +kernel
+
+/-- non-vacuity of `C18_texts_verbatim` (and of the complete `is_uuid`: a header id with a leading blank is valid, no id
+step is scheduled): after the upgrade the unit texts are `µV` and `spikes / s`, not `uV` and `spikes/s` -/
+example : WF rawTexts ∧ (upgrade [1, 2, 1] 1 rawTexts).2 = none ∧
+    (lookup (upgrade [1, 2, 1] 1 rawTexts).1.props ["s", "properties", "a"]).map storedUnit = some (some "µV") ∧
+    (lookup (upgrade [1, 2, 1] 1 rawTexts).1.props ["s", "properties", "b"]).map storedUnit = some (some "spikes / s") ∧
+    (lookup (upgrade [1, 2, 1] 1 rawTexts).1.props ["s", "properties", "a"]).map storedDefinition
+      = some (some " lead, trail ") := by
+  unfold upgrade
+  rw [rawTexts_collect]
   decide +kernel
 
 /-! ## interruption *inside* one conversion
